@@ -1,15 +1,155 @@
 package main
 
 import (
+	"flag"
 	"fmt"
-
-	"golang.org/x/tools/go/packages"
-	"golang.org/x/tools/go/ssa"
-	"golang.org/x/tools/go/ssa/ssautil"
+	"os"
+	"path/filepath"
+	"sort"
+	"strings"
+	"sync"
+	"time"
 )
 
-var _ = packages.Load
-var _ ssa.Value
-var _ = ssautil.AllPackages
+func usage() {
+	fmt.Fprintln(os.Stderr, `usage:
+  cbv list                         list functions (contract units) of /repo
+  cbv unit [-smt] [-v] NAME...     build and solve the given units, print every obligation
+  cbv sweep                        safety sweep over every function
+  cbv check -prop ID -tier quick|thorough   (registered in MANIFEST.json)`)
+	os.Exit(2)
+}
 
-func main() { fmt.Println("ok") }
+func main() {
+	if len(os.Args) < 2 {
+		usage()
+	}
+	cmd := os.Args[1]
+	fs := flag.NewFlagSet(cmd, flag.ExitOnError)
+	repo := fs.String("repo", "/repo", "repository to verify")
+	verif := fs.String("verif", "/verif", "verification directory")
+	smt := fs.Bool("smt", false, "dump SMT scripts to work/")
+	verbose := fs.Bool("v", false, "verbose")
+	timeout := fs.Int("timeout", 5000, "per-obligation timeout (ms)")
+	prop := fs.String("prop", "", "property id")
+	tier := fs.String("tier", "quick", "quick|thorough")
+	fs.Parse(os.Args[2:])
+
+	t0 := time.Now()
+	e, err := loadEngine(*repo)
+	if err != nil {
+		fmt.Fprintln(os.Stderr, "load:", err)
+		os.Exit(3)
+	}
+	e.verbose = *verbose
+	if err := e.loadSpecs(filepath.Join(*verif, "spec")); err != nil {
+		fmt.Fprintln(os.Stderr, "spec:", err)
+		os.Exit(3)
+	}
+	e.preRegisterTags()
+	loadS := time.Since(t0).Seconds()
+
+	switch cmd {
+	case "list":
+		for _, n := range e.funcNames() {
+			mark := " "
+			if e.spec.Contracts[n] != nil {
+				mark = "C"
+			}
+			fmt.Printf("%s %s\n", mark, n)
+		}
+	case "unit", "sweep":
+		names := fs.Args()
+		if cmd == "sweep" && len(names) == 0 {
+			names = e.funcNames()
+		}
+		opts := SolveOpts{TimeoutMs: *timeout, RecheckMs: *timeout * 2}
+		if *smt {
+			opts.DumpDir = filepath.Join(*verif, "work")
+		}
+		results := e.runUnits(names, opts)
+		total, bad := 0, 0
+		for _, r := range results {
+			if r.Err != nil {
+				fmt.Printf("== %s: ERROR %v\n", r.Name, r.Err)
+				bad++
+				continue
+			}
+			nob, nfail := 0, 0
+			for _, o := range r.VC.obligs {
+				if o.Cand >= 0 {
+					continue
+				}
+				nob++
+				if o.Status != "unsat" {
+					nfail++
+				}
+			}
+			total += nob
+			bad += nfail
+			if cmd == "unit" || nfail > 0 || *verbose {
+				fmt.Printf("== %s: %d obligations, %d not discharged\n", r.Name, nob, nfail)
+			}
+			for _, o := range r.VC.obligs {
+				if o.Cand >= 0 {
+					continue
+				}
+				if o.Status != "unsat" || cmd == "unit" && *verbose {
+					fmt.Printf("   %-8s %-7s %s  (%s)\n", o.Status, o.Solver, o.Name, o.Pos)
+					if o.Model != "" && *verbose {
+						fmt.Printf("            model: %s\n", strings.ReplaceAll(o.Model, "\n", " "))
+					}
+				}
+			}
+			if *verbose || cmd == "unit" {
+				var notes []string
+				for n := range r.VC.notes {
+					notes = append(notes, n)
+				}
+				sort.Strings(notes)
+				for _, n := range notes {
+					fmt.Printf("   note: %s\n", n)
+				}
+			}
+		}
+		fmt.Printf("TOTAL units=%d obligations=%d not-discharged=%d load=%.1fs wall=%.1fs\n", len(results), total, bad, loadS, time.Since(t0).Seconds())
+	case "check":
+		os.Exit(e.checkProperty(*verif, *prop, *tier, t0))
+	default:
+		usage()
+	}
+}
+
+func (e *Engine) runUnits(names []string, opts SolveOpts) []*UnitResult {
+	results := make([]*UnitResult, len(names))
+	var wg sync.WaitGroup
+	sem := make(chan struct{}, 16)
+	var mu sync.Mutex // VC generation shares engine tables (shapes, tags)
+	for i, n := range names {
+		wg.Add(1)
+		go func(i int, n string) {
+			defer wg.Done()
+			sem <- struct{}{}
+			defer func() { <-sem }()
+			mu.Lock()
+			r := e.buildUnit(n)
+			mu.Unlock()
+			if r.Err == nil && r.VC != nil {
+				solveUnit(r.VC, opts)
+			}
+			results[i] = r
+		}(i, n)
+	}
+	wg.Wait()
+	return results
+}
+
+// preRegisterTags gives every package type (T and *T) and the known extern
+// error types a dynamic-type tag up front so that tag numbering does not depend
+// on translation order.
+func (e *Engine) preRegisterTags() {
+	e.registerPackageTags()
+	e.tagOfName("*errors.errorString")
+	e.tagOfName("*fmt.wrapError")
+	e.tagOfName("*errors.joinError")
+}
